@@ -31,10 +31,11 @@ Lemma deploy_loop_ms : forall opi pod n r idxs w k,
     length ms = length idxs /\
     (length failed + length (created_of ms) = length idxs)%nat /\
     (forall p, In p (created_of ms) -> wi_op (fst p) = opi /\ wi_node (fst p) = n /\ snd p = r) /\
+    (failed <> [] -> k' = None) /\
     core3 w' w (wls w ++ map (wl_of pod) (created_of ms)) (conts w ++ map cont_of (created_of ms)).
 Proof.
   intros opi pod n r idxs w k Hnd Hf.
-  destruct (deploy_loop_spec opi pod n r idxs w k Hnd Hf) as [w' [k' [failed [ms [H [Hincl [Hsub [Hms Hcore]]]]]]]].
+  destruct (deploy_loop_spec opi pod n r idxs w k Hnd Hf) as [w' [k' [failed [ms [H [Hincl [Hsub [Hkn [Hms Hcore]]]]]]]]].
   exists w', k', failed, ms. split; [exact H|].
   assert (Hc : created_of ms = map (fun i => (mkWid opi n i, r)) (succ_of idxs failed)).
   { rewrite Hms. apply created_of_loop. }
@@ -43,6 +44,7 @@ Proof.
   { rewrite Hc, map_length. rewrite Hsub at 1. unfold succ_of. apply filter_len_split. }
   split.
   { intros p Hp. rewrite Hc in Hp. apply in_map_iff in Hp. destruct Hp as [i [<- _]]. simpl. auto. }
+  split; [exact Hkn|].
   rewrite Hc. rewrite !map_map. unfold wl_of, cont_of. cbn [fst snd wi_node]. exact Hcore.
 Qed.
 
@@ -61,20 +63,21 @@ Proof.
     eapply core3_trans; eauto.
 Qed.
 
-(* doGetAndPrepareNode only reads *)
-Lemma prep_node_neutral : forall n w k, exists k' e, crunk (get_and_prepare_node n) w k = (w, k', e).
+(* doGetAndPrepareNode only reads; on an existing node it can only fail by the injected fault *)
+Lemma prep_node_neutral : forall n w k, find_node w n <> None ->
+  exists k' e, crunk (get_and_prepare_node n) w k = (w, k', e) /\ (e <> None -> k' = None).
 Proof.
-  intros n w k. unfold get_and_prepare_node, prepare_image, doc, call1, crunk. norm.
+  intros n w k Hn. unfold get_and_prepare_node, prepare_image, doc, call1, crunk. norm.
   destruct k as [[|k]|]; norm.
-  - do 2 eexists; reflexivity.
-  - cbn [exec]. destruct (find_node w n); norm; [|do 2 eexists; reflexivity].
+  - do 2 eexists; split; [reflexivity|reflexivity].
+  - cbn [exec]. destruct (find_node w n); [|congruence]. norm.
     destruct k as [|k]; norm.
-    + cbn [exec]. norm. do 2 eexists; reflexivity.
+    + cbn [exec]. norm. do 2 eexists; split; [reflexivity|congruence].
     + cbn [exec]. norm. destruct k as [|k]; norm.
-      * cbn [exec]. norm. do 2 eexists; reflexivity.
-      * cbn [exec]. norm. do 2 eexists; reflexivity.
-  - cbn [exec]. destruct (find_node w n); norm; [|do 2 eexists; reflexivity].
-    cbn [exec]. norm. cbn [exec]. norm. do 2 eexists; reflexivity.
+      * cbn [exec]. norm. do 2 eexists; split; [reflexivity|congruence].
+      * cbn [exec]. norm. do 2 eexists; split; [reflexivity|congruence].
+  - cbn [exec]. destruct (find_node w n); [|congruence]. norm.
+    cbn [exec]. norm. cbn [exec]. norm. do 2 eexists; split; [reflexivity|congruence].
 Qed.
 
 Lemma seq_nat_nodup : forall len start, NoDup (seq_nat start len).
@@ -96,22 +99,24 @@ Definition node_msgs_ok (opi : nat) (n : name) (r : res) (ms : list msg) : Prop 
   forall p, In p (created_of ms) -> wi_op (fst p) = opi /\ wi_node (fst p) = n /\ snd p = r.
 
 Lemma deploy_on_node_ms : forall opi pod n cnt r w k,
-  fresh_on w opi [n] ->
+  fresh_on w opi [n] -> find_node w n <> None ->
   exists w' k' failed ms, crunk (deploy_on_node opi pod n cnt r) w k = (w', k', (failed, ms)) /\
     length ms = cnt /\
     (length failed + length (created_of ms) = cnt)%nat /\
     node_msgs_ok opi n r ms /\
+    (failed <> [] -> k' = None) /\
     core3 w' w (wls w ++ map (wl_of pod) (created_of ms)) (conts w ++ map cont_of (created_of ms)).
 Proof.
-  intros opi pod n cnt r w k Hf. unfold deploy_on_node. rewrite crunk_bind.
-  destruct (prep_node_neutral n w k) as [k1 [e H1]]. rewrite H1.
+  intros opi pod n cnt r w k Hf Hnode. unfold deploy_on_node. rewrite crunk_bind.
+  destruct (prep_node_neutral n w k Hnode) as [k1 [e [H1 He]]]. rewrite H1.
   destruct e as [err|].
   - rewrite crunk_bind. destruct (sends_core (seq_nat 0 cnt) MCreateErr w k1) as [w2 [k2 [H2 Hc2]]]. rewrite H2.
     unfold crunk. cbn [runk]. do 4 eexists. split; [reflexivity|].
     split; [apply repeat_length|]. split; [rewrite created_of_errs, seq_nat_length; simpl; lia|].
     split; [intros p Hp; rewrite created_of_errs in Hp; destruct Hp|].
+    split; [intros _; rewrite (He ltac:(discriminate)) in H2; apply crunk_none_k in H2; exact H2|].
     rewrite created_of_errs. simpl. rewrite !app_nil_r. exact Hc2.
-  - destruct (deploy_loop_ms opi pod n r (seq_nat 0 cnt) w k1 (seq_nat_nodup cnt 0)) as [w' [k' [failed [ms [H [Hl [Hcount [Hprops Hcore]]]]]]]].
+  - destruct (deploy_loop_ms opi pod n r (seq_nat 0 cnt) w k1 (seq_nat_nodup cnt 0)) as [w' [k' [failed [ms [H [Hl [Hcount [Hprops [Hkn Hcore]]]]]]]]].
     { intros i _. apply Hf. left; reflexivity. }
     rewrite seq_nat_length in *. do 4 eexists. split; [exact H|]. auto.
 Qed.
@@ -149,21 +154,23 @@ Definition created_on (ms : list msg) (n : name) : nat := length (filter (fun p 
 (* doDeployWorkloads over the whole plan: one message per planned instance; exactly the instances
    reported as created are recorded and running; per node, rolled-back + created = planned *)
 Lemma deploy_all_ms : forall opi pod r plan w k,
-  NoDup (map fst plan) -> fresh_on w opi (map fst plan) ->
+  NoDup (map fst plan) -> fresh_on w opi (map fst plan) -> (forall n, In n (map fst plan) -> find_node w n <> None) ->
   exists w' k' rb ms, crunk (deploy_all opi pod r plan) w k = (w', k', (rb, ms)) /\
     length ms = plan_total plan /\
+    (rb <> [] -> k' = None) /\
     (forall p, In p (created_of ms) -> wi_op (fst p) = opi /\ In (wi_node (fst p)) (map fst plan) /\ snd p = r) /\
     (forall n cnt, In (n, cnt) plan -> (rb_len rb n + created_on ms n = cnt)%nat) /\
     (forall n, ~ In n (map fst plan) -> rb_len rb n = 0%nat) /\
     core3 w' w (wls w ++ map (wl_of pod) (created_of ms)) (conts w ++ map cont_of (created_of ms)).
 Proof.
-  intros opi pod r plan. induction plan as [|[n cnt] rest IH]; intros w k Hnd Hf.
-  - unfold crunk. simpl. do 4 eexists. split; [reflexivity|]. split; [reflexivity|].
+  intros opi pod r plan. induction plan as [|[n cnt] rest IH]; intros w k Hnd Hf Hnodes.
+  - unfold crunk. simpl. do 4 eexists. split; [reflexivity|]. split; [reflexivity|]. split; [congruence|].
     split; [intros p []|]. split; [intros ? ? []|]. split; [reflexivity|]. simpl. rewrite !app_nil_r. apply core3_refl.
   - cbn [map fst] in *. inversion Hnd as [|? ? Hni Hnd']; subst.
     cbn [deploy_all]. rewrite crunk_bind.
-    destruct (deploy_on_node_ms opi pod n cnt r w k) as [w1 [k1 [failed [ms1 [H1 [Hl1 [Hcnt1 [Hok1 Hc1]]]]]]]].
+    destruct (deploy_on_node_ms opi pod n cnt r w k) as [w1 [k1 [failed [ms1 [H1 [Hl1 [Hcnt1 [Hok1 [Hk1 Hc1]]]]]]]]].
     { intros n0 i [<-|[]]. apply Hf. left; reflexivity. }
+    { apply Hnodes. left; reflexivity. }
     rewrite H1. rewrite crunk_bind.
     assert (Hf1 : fresh_on w1 opi (map fst rest)).
     { intros n' i Hn'. assert (Hne : n' <> n) by (intro; subst; auto).
@@ -177,7 +184,9 @@ Proof.
         destruct (Hok1 p Hp) as [_ [Hn _]]. unfold cont_of; simpl. unfold wid_eqb; simpl.
         destruct (fst p) as [o nn ii]; simpl in *. subst nn.
         assert (Nat.eqb n n' = false) as -> by (apply Nat.eqb_neq; auto). rewrite andb_false_r. reflexivity. }
-    destruct (IH w1 k1 Hnd' Hf1) as [w2 [k2 [rb [ms2 [H2 [Hl2 [Hok2 [Hcnt2 [Hrb0 Hc2]]]]]]]]].
+    assert (Hnodes1 : forall n', In n' (map fst rest) -> find_node w1 n' <> None).
+    { intros n' Hn'. unfold find_node. destruct Hc1 as [_ [Hnn _]]. rewrite Hnn. apply Hnodes. right; exact Hn'. }
+    destruct (IH w1 k1 Hnd' Hf1 Hnodes1) as [w2 [k2 [rb [ms2 [H2 [Hl2 [Hk2 [Hok2 [Hcnt2 [Hrb0 Hc2]]]]]]]]]].
     rewrite H2. unfold crunk. cbn [runk fst snd].
     (* no created instance of the rest is on n, none of ms1 is on a later node *)
     assert (Hon1 : forall n', n' <> n -> created_on ms1 n' = 0%nat).
@@ -191,6 +200,9 @@ Proof.
     exists w2, k2, (match failed with [] => rb | _ => (n, failed) :: rb end), (ms1 ++ ms2).
     split; [reflexivity|].
     split; [rewrite app_length, Hl1, Hl2; reflexivity|].
+    split.
+    { destruct failed as [|f0 ft]; [exact Hk2|]. intros _.
+      rewrite (Hk1 ltac:(discriminate)) in H2. apply crunk_none_k in H2. exact H2. }
     split.
     { intros p Hp. rewrite created_of_app in Hp. apply in_app_or in Hp. destruct Hp as [Hp|Hp].
       - destruct (Hok1 p Hp) as [? [? ?]]. split; auto. split; auto. left; auto.
